@@ -51,11 +51,11 @@ def gen_cases(seed, tier):
                                   noise_std=1.0, bg_noise_std=0.0)
         cfg['nchan'] = int(rng.integers(1, min(cfg['P'] // 2, 5) + 1))
         cfg['start_chan'] = int(rng.integers(0, cfg['P'] // 2 - cfg['nchan'] + 1))
-        cfg['digitize'] = bool((i // 2) % 2)
+        cfg['digitize'] = bool(common.stratum(i, 1, 2))
         cfg['delays'] = [0] * cfg['nants'] if cfg['nants'] > 1 else None
-        length = ['omitted', 'shorter', 'equal', 'longer'][(i // 4) % 4]
-        cases.append(dict(cfg=cfg, source=SOURCES[i % 2], directio=int((i // 3) % 2), align=bool(i % 7 == 0),
-                          length=length, length_mode=['num_blocks', 'obs_length'][(i // 16) % 2],
+        length = common.stratum(i, 2, ['omitted', 'shorter', 'equal', 'longer'])
+        cases.append(dict(cfg=cfg, source=common.stratum(i, 3, SOURCES), directio=int(common.stratum(i, 4, 2)), align=bool(common.stratum(i, 5, 7) == 0),
+                          length=length, length_mode=common.stratum(i, 6, ['num_blocks', 'obs_length']),
                           nsub_out=int(rng.integers(1, cfg['mult'] + 3)), tone_chan=float(rng.uniform(0.1, 0.4)) * (1 if rng.random() < 0.5 else -1),
                           tone_level=float(rng.uniform(0.02, 0.3)), with_noise=bool(rng.integers(2)), est_seed=int(rng.integers(2 ** 31)),
                           sub=int(rng.integers(2 ** 31))))
